@@ -198,17 +198,13 @@ def check(P, rep):
             rep.floor('%s expiry-valid edges' % en, len(valid), 1)
             nflow = 0
             for gd in guard_edges(g):
-                if gd.cond[0] == 'cmp' and core(gd.cond[2]) == amount and any(is_stored_allow(x) for x in alts(gd.cond[3])) and gd.label != 0:
+                if gd.cond[0] == 'cmp' and core(gd.cond[2]) == amount and any(is_stored_allow(x) for x in alts(gd.cond[3])) and gd.truth != 0:
+                    # follow the tested value back through the comparison (wherever it was computed: in this block, in the caller of a
+                    # `require(cond)` helper, through a local) to the stored allowance it compares
                     t = gd.ctx.body['blocks'][gd.bb]['term']
-                    st = gd.ctx.body['blocks'][gd.bb]['st']
-                    # the compared operands are defined in this block: follow every local used by the comparison
-                    for s_ in st:
-                        if s_['s'] == 'assign' and s_['rv']['r'] == 'bin':
-                            for o in (s_['rv']['a'], s_['rv']['b']):
-                                if o['k'] in ('copy', 'move'):
-                                    nflow += gvf(rep, g, 'C12.R5', '%s:guard-uses-valid-allowance' % en,
-                                                 'the allowance compared with amount is usable (sequence <= expiration) when it is the stored amount',
-                                                 g.def_chains(gd.ctx, gd.bb, st.index(s_), o['pl']), valid, site(g, gd.ctx, gd.bb))
+                    nflow += gvf(rep, g, 'C12.R5', '%s:guard-uses-valid-allowance' % en,
+                                 'the allowance compared with amount is usable (sequence <= expiration) when it is the stored amount',
+                                 g.operand_chains(gd.ctx, gd.bb, t['d']) if t['t'] == 'switch' else [], valid, site(g, gd.ctx, gd.bb))
             for e in rew:
                 t = e.ctx.body['blocks'][e.bb]['term']
                 nflow += gvf(rep, g, 'C12.R5', '%s:rewrite-uses-valid-allowance' % en,
